@@ -697,6 +697,18 @@ fn pool_checks(threads: usize, ids: &[u16], other: &[u16], hb: u8) -> Result<u64
             if m.par_eq(&m3) {
                 return Err(ctx("par_eq (different maps compare equal)"));
             }
+            // same length, one key renamed (all common keys agree): still different, in both directions
+            m3.insert(GEl::new(first + 20000), GEl::new(first + 1002));
+            if m.par_eq(&m3) != (m == m3) || m3.par_eq(&m) != (m3 == m) || m.par_eq(&m3) {
+                return Err(ctx("par_eq (equal-length maps with different key sets compare equal)"));
+            }
+            let s1 = gset(ids, hb);
+            let mut s2 = gset(ids, hb);
+            s2.remove(&GEl::new(first));
+            s2.insert(GEl::new(first + 20000));
+            if s1.par_eq(&s2) || s2.par_eq(&s1) || s1.par_is_subset(&s2) || s1.par_is_superset(&s2) {
+                return Err(ctx("set par_eq / par_is_subset (equal-length sets with one element renamed)"));
+            }
         }
         // par_extend / from_par_iter
         let mut e = gmap(&ids[..ids.len() / 2], hb);
@@ -888,6 +900,26 @@ fn pool_checks(threads: usize, ids: &[u16], other: &[u16], hb: u8) -> Result<u64
                 t.insert_unique(h, e, hh);
             }
             drop(t.par_drain());
+            // ... also for element types without drop glue
+            let mut pm: HashMap<u16, u16, ModBuild> = HashMap::with_hasher(ModBuild(hb));
+            let mut pset: HashSet<u16, ModBuild> = HashSet::with_hasher(ModBuild(hb));
+            let mut pt: HashTable<u16> = HashTable::new();
+            let h16 = |e: &u16| ModBuild(hb).hash_one(e);
+            for &i in ids {
+                pm.insert(i, i);
+                pset.insert(i);
+                pt.insert_unique(h16(&i), i, h16);
+            }
+            drop(pm.par_drain());
+            drop(pset.par_drain());
+            drop(pt.par_drain());
+            if !pm.is_empty() || !pset.is_empty() || !pt.is_empty() || pm.iter().count() + pset.iter().count() + pt.iter().count() != 0 {
+                return Err(format!("{}: par_drain() of plain elements dropped without being driven left {} / {} / {} elements in the map / set / table", ctx("par_drain"), pm.len(), pset.len(), pt.len()));
+            }
+            pm.insert(1, 1);
+            if pm.get(&1) != Some(&1) {
+                return Err(ctx("map unusable after an undriven par_drain"));
+            }
             if !m.is_empty() || !st.is_empty() || !t.is_empty() {
                 return Err(format!("{}: par_drain() dropped without being driven left {} / {} / {} elements in the map / set / table", ctx("par_drain"), m.len(), st.len(), t.len()));
             }
